@@ -40,6 +40,9 @@ ALLOWED_AXIOMS = {
     "Classical_Prop.classic",
 }
 # prefixes of primitive-integer / float specification axioms pulled in by Bignums / Interval
+# coqchk re-checks the whole closure (Coq-Interval, Flocq, Bignums for the numeric properties): 25-60 min for C13 on a loaded
+# machine.  The limit only guards against a hang; running into it is reported as a failed obligation.
+COQCHK_TIMEOUT = 14400
 ALLOWED_AXIOM_PREFIXES = ("Uint63.", "PrimInt63.", "Sint63.", "PrimFloat.", "FloatAxioms.",
                           "Uint63Axioms.", "CarryType.", "PrimArray.")
 
@@ -332,12 +335,16 @@ class Check:
             self.oblige("theorem", r["name"], r["ok"], r.get("error", "") or ("axioms: " + (", ".join(r["axioms"]) or "none")))
         self.extra["theorem_axioms"] = {r["name"]: r["axioms"] for r in res}
         if self.tier == "thorough":
-            self.coqchk()
+            # the independent checker runs beside the rest of the check (it takes 1-60 min); finish() waits for it
+            import threading
+            self._coqchk_thread = threading.Thread(target=self.coqchk, daemon=True)
+            self._coqchk_thread.start()
         return all(r["ok"] for r in res)
 
     def coqchk(self):
         """Thorough tier: re-check the property file and everything it depends on with the independent checker."""
-        rc, out = sh(["timeout", "2400", "coqchk", "-silent", "-o", "-Q", COQ, "CE", f"CE.Properties.{self.pid}"], timeout=2500)
+        rc, out = sh(["timeout", str(COQCHK_TIMEOUT), "coqchk", "-silent", "-o", "-Q", COQ, "CE", f"CE.Properties.{self.pid}"],
+                     timeout=COQCHK_TIMEOUT + 100)
         axioms = []
         sect = None
         flags = {}
@@ -361,6 +368,9 @@ class Check:
         self.extra["coqchk_axioms"] = short
 
     def finish(self):
+        th = getattr(self, "_coqchk_thread", None)
+        if th is not None:
+            th.join()
         wall = time.time() - self.t0
         bad_h = hygiene()
         if bad_h:
